@@ -41,12 +41,14 @@ Theorem C05_padconv_fires_side_conditions : forall p out, fuse_impl p = Some out
 Proof. exact fuse_impl_fires_side_conditions. Qed.
 Print Assumptions C05_padconv_fires_side_conditions.
 
-(* Conv(Pad_0(x; b1,e1); pads b2,e2) = Conv(x; pads b1+b2, e1+e2): every kernel, stride, dilation, signal, output index *)
-Theorem C05_padconv_fuse_sound : forall w k s d b1 e1 b2 e2 x, 0 <= b1 -> 0 <= e1 ->
+(* PARTIAL: stated for ONE spatial axis (1-D signals); the n-D operator pads every axis independently, that product structure
+   is not formalised (measured by the oracle on 1-3 spatial axes).
+   Conv(Pad_0(x; b1,e1); pads b2,e2) = Conv(x; pads b1+b2, e1+e2): every kernel, stride, dilation, signal, output index *)
+Theorem C05_padconv_fuse_sound_partial : forall w k s d b1 e1 b2 e2 x, 0 <= b1 -> 0 <= e1 ->
   conv_pads_len k s d b2 e2 (pad0 b1 e1 x) = conv_pads_len k s d (b1 + b2) (e1 + e2) x /\
   forall j, conv_pads_at w k s d b2 e2 (pad0 b1 e1 x) j = conv_pads_at w k s d (b1 + b2) (e1 + e2) x j.
 Proof. exact fuse_pad_conv_sound. Qed.
-Print Assumptions C05_padconv_fuse_sound.
+Print Assumptions C05_padconv_fuse_sound_partial.
 
 (* the two conjuncts of `check` that the theorem needs are necessary *)
 Theorem C05_padconv_negative_pads_refuted : exists w k s d b1 e1 b2 e2 x j,
@@ -60,10 +62,10 @@ Proof. exact fuse_pad_conv_nonzero_value_refuted. Qed.
 Print Assumptions C05_padconv_nonzero_value_refuted.
 
 (* ConvInteger: sound when x_zero_point = 0 ... *)
-Theorem C05_padconv_convinteger_zero_point_0 : forall w k s d b1 e1 b2 e2 x j, 0 <= b1 -> 0 <= e1 ->
+Theorem C05_padconv_convinteger_zero_point_0_partial : forall w k s d b1 e1 b2 e2 x j, 0 <= b1 -> 0 <= e1 ->
   convint_host_at w k s d b1 e1 b2 e2 0 x j = convint_pads_at w k s d (b1 + b2) (e1 + e2) 0 x j.
 Proof. exact fuse_pad_convinteger_sound_zero_point_0. Qed.
-Print Assumptions C05_padconv_convinteger_zero_point_0.
+Print Assumptions C05_padconv_convinteger_zero_point_0_partial.
 
 (* ... and NOT otherwise; `check` as read does not look at x_zero_point (finding C05:padconv:convinteger-nonzero-zero-point) *)
 Theorem C05_padconv_convinteger_zero_point_refuted : exists w k s d b1 e1 zp x j,
